@@ -373,16 +373,32 @@ func boundsFrom(atoms []Atom, key string, init bound) bound {
 		x, y := c.Args[0], c.Args[1]
 		op := c.Aux
 		var k int64
+		unsignedView := false
 		if n, ok := y.IsIntConst(); ok && x.String() == key {
 			k = n
 		} else if n, ok := x.IsIntConst(); ok && y.String() == key {
 			k = n
+			op = flipOp(op)
+		} else if n, ok := y.IsIntConst(); ok && n >= 0 && signedUnder(x) != nil && signedUnder(x).String() == key {
+			k, unsignedView = n, true
+		} else if n, ok := x.IsIntConst(); ok && n >= 0 && signedUnder(y) != nil && signedUnder(y).String() == key {
+			k, unsignedView = n, true
 			op = flipOp(op)
 		} else {
 			continue
 		}
 		if !taken {
 			op = negOp(op)
+		}
+		if unsignedView {
+			// uint(v) <= k, with v signed and no narrower than the unsigned type: a negative v would be a huge number, so
+			// the one comparison says 0 <= v <= k; uint(v) > k says "v < 0 or v > k", which is no interval
+			switch op {
+			case "<", "<=", "==":
+				b.setLo(0)
+			default:
+				continue
+			}
 		}
 		switch op {
 		case "<":
@@ -413,6 +429,36 @@ func boundsFrom(atoms []Atom, key string, init bound) bound {
 		}
 	}
 	return b
+}
+
+// signedUnder: t is the conversion of a signed integer to an unsigned integer type that is at least as wide (uint(v) with v
+// an int, uint32(v) with v an int32 or int16): the signed operand, otherwise nil.
+func signedUnder(t *Term) *Term {
+	if t.Op != "convert" || len(t.Args) != 1 || t.Type == nil || t.Args[0].Type == nil {
+		return nil
+	}
+	to, ok1 := t.Type.Underlying().(*types.Basic)
+	from, ok2 := t.Args[0].Type.Underlying().(*types.Basic)
+	if !ok1 || !ok2 || to.Info()&types.IsUnsigned == 0 || from.Info()&types.IsInteger == 0 || from.Info()&types.IsUnsigned != 0 {
+		return nil
+	}
+	width := func(b *types.Basic) int {
+		switch b.Kind() {
+		case types.Int8, types.Uint8:
+			return 8
+		case types.Int16, types.Uint16:
+			return 16
+		case types.Int32, types.Uint32:
+			return 32
+		case types.Int64, types.Uint64, types.Int, types.Uint, types.Uintptr:
+			return 64
+		}
+		return 0
+	}
+	if width(to) == 0 || width(from) == 0 || width(to) < width(from) {
+		return nil
+	}
+	return t.Args[0]
 }
 
 func (b *bound) setLo(k int64) {
